@@ -5,6 +5,7 @@
   pinned tree (open finding C16-heading-components-swapped).  All statements are over ℝ and for all inputs.
 -/
 import AeicProofs.Lemmas.C16Wind
+import AeicProofs.Lemmas.KernelBridge2
 
 namespace C16
 open Aeic Aeic.Wind
@@ -257,5 +258,35 @@ example (c : ℝ) : trilinear [(200 : ℝ), 300] [40, 42] [-80, -75] [[[c, c], [
 
 example : locate [(200 : ℝ), 300] 301 = none :=
   locate_none_of_outside _ _ (Or.inl (by intro y hy; simp at hy; rcases hy with rfl | rfl <;> norm_num))
+
+
+/-! ## Source tie: the last lines of `Weather.get_ground_speed` as regenerated from `weather.py` (`Aeic.Kern.weather_ground_speed`,
+    inputs: true airspeed, heading in radians, interpolated wind components) -/
+
+/-- the source text computes the model's ground speed with one of the two heading decompositions: the **as-is** one today
+    (`u_air = tas·cos h`, `v_air = tas·sin h`: the open finding `C16-heading-components-swapped` is a theorem about the source text,
+    re-checked on every run), or the intended one once it is repaired -/
+theorem src_ground_speed_variant (A : String → ℝ) :
+    (∀ tas hdg u v : ℝ, Kern.weather_ground_speed A tas (deg2rad hdg) u v = groundSpeedAsIs tas hdg u v) ∨
+    (∀ tas hdg u v : ℝ, Kern.weather_ground_speed A tas (deg2rad hdg) u v = groundSpeed tas hdg u v) := by
+  rcases KernelBridge2.weather_ground_speed A with h | h
+  · left; intro tas hdg u v; rw [h]; rfl
+  · right; intro tas hdg u v; rw [h]; rfl
+
+/-- the clauses that hold for both decompositions, stated about the source text: no wind ⇒ the airspeed; always between
+    |tas − W| and tas + W -/
+theorem src_zero_wind_and_bounds (A : String → ℝ) (tas hdg u v : ℝ) (ht : 0 ≤ tas) :
+    Kern.weather_ground_speed A tas (deg2rad hdg) 0 0 = tas ∧
+    |tas - hypot u v| ≤ Kern.weather_ground_speed A tas (deg2rad hdg) u v ∧
+    Kern.weather_ground_speed A tas (deg2rad hdg) u v ≤ tas + hypot u v := by
+  rcases src_ground_speed_variant A with h | h
+  · rw [h, h]; exact ⟨zero_wind_is_tas_as_is tas hdg ht, between_bounds_as_is tas hdg u v ht⟩
+  · rw [h, h]; exact ⟨zero_wind_is_tas tas hdg ht, between_bounds tas hdg u v ht⟩
+
+/-- as long as the source is the as-is decomposition, the tail-wind clause fails on it: heading 090, 200 m/s, 50 m/s of tailwind -/
+theorem src_tailwind_fails_if_as_is (A : String → ℝ)
+    (h : ∀ tas hdg u v : ℝ, Kern.weather_ground_speed A tas (deg2rad hdg) u v = groundSpeedAsIs tas hdg u v) :
+    Kern.weather_ground_speed A (200 : ℝ) (deg2rad 90) 50 0 ≠ 200 + 50 := by
+  rw [h]; exact tailwind_fails_as_is
 
 end C16
